@@ -85,8 +85,15 @@ def gen_churn(seed, tier):
     w["calcs"].append({"config": {"max_calc_step_size_feet": gen.pick(rng, [4.0, 8.0])}})
     family = {"kind": "derived", "name": gen.pick(rng, gen.SHIPPED_TABLES), "stride": rng.randint(1, 3), "offset": rng.randint(0, 2)}
     prog = [{"op": "new_calc", "calc": 0}]
+    import copy
+    import random as _random
+    r2 = _random.Random(repr(rng.getstate()[1][:6]) + "again")          # side stream: the other draws of a seed stay as they were
     for _ in range(rng.randint(150, 260)):
         prog.append(simgen.gen_fire_tmp(rng, 0, family))
+        if len(prog) > 3 and r2.random() < 0.2:
+            # an EARLIER computation again (same contents, newly built objects), any number of other tables in between:
+            # whatever is remembered per table contents and evicted / overwritten in between must not come back wrong
+            prog.append(copy.deepcopy(prog[r2.randint(1, len(prog) - 1)]))
     return {"seed": seed, "world": w, "programs": [prog], "roles": {"0": "client"}, "faults": [],
             "config": {"mode": "none", "policy": "serial", "mean_run": 1000, "opcode": False}}
 
